@@ -583,7 +583,7 @@ func (e *Engine) block(fr *frame, b, prev *ssa.BasicBlock, st *State, outs *[]Ou
 		}
 	}
 	fr.visits[b]++
-	if fr.visits[b] > e.MaxVisits+1 || (fr.visits[b] > e.MaxVisits && isLoopHeader(b)) {
+	if fr.visits[b] > e.MaxVisits+1 || (fr.visits[b] > e.MaxVisits && e.isLoopHeader(b)) {
 		e.paths++
 		*outs = append(*outs, Outcome{St: st, Cut: true, CutBlock: b, CutPhis: phiVals})
 		return
@@ -594,17 +594,18 @@ func (e *Engine) block(fr *frame, b, prev *ssa.BasicBlock, st *State, outs *[]Ou
 	e.instrs(fr, b, 0, st, outs)
 }
 
-var loopHeaderCache = map[*ssa.Function]map[*ssa.BasicBlock]bool{}
-
-func isLoopHeader(b *ssa.BasicBlock) bool {
+func (e *Engine) isLoopHeader(b *ssa.BasicBlock) bool {
 	fn := b.Parent()
-	m, ok := loopHeaderCache[fn]
+	if e.P.memoLoopHeaders == nil {
+		e.P.memoLoopHeaders = map[*ssa.Function]map[*ssa.BasicBlock]bool{}
+	}
+	m, ok := e.P.memoLoopHeaders[fn]
 	if !ok {
 		m = map[*ssa.BasicBlock]bool{}
 		for h := range loopsOf(fn) {
 			m[h] = true
 		}
-		loopHeaderCache[fn] = m
+		e.P.memoLoopHeaders[fn] = m
 	}
 	return m[b]
 }
